@@ -417,9 +417,60 @@ struct StoreSession : public vw::Session {
     return "checked " + std::to_string(n) + " bad " + std::to_string(bad);
   }
 
+  // `sdump`: the VBK and BTC trees in the form the C09 stack-finalization correspondence feeds to the model
+  // (coq/Store/StackDefs.v): per block name,parent|-,height,dirty,final,payload ids; tips, root, best chain tip,
+  // finalized payload index, and for VBK the refs of the BTC best tip (the bound of VbkBlockTree::finalizeBlocks)
+  std::string spPayloads(const BlockIndex<VbkBlock>& i) {
+    std::string pl;
+    for (auto& id : i.getPayloadIds<VTB>()) {
+      auto it = reg->names.find("id:" + vh::hex(id.data(), id.size()));
+      pl += (pl.empty() ? "" : ".") + (it == reg->names.end() ? std::string("?") : it->second);
+    }
+    return pl;
+  }
+  std::string spPayloads(const BlockIndex<BtcBlock>&) { return ""; }
+  template <typename Tree>
+  std::string spTree(const Tree& t, const char* tag) {
+    std::vector<std::string> ls;
+    for (auto* i : t.getBlocks()) {
+      std::string l = reg->nameOf(i->getHash()) + "," + (i->pprev ? reg->nameOf(i->pprev->getHash()) : std::string("-")) + "," +
+                      std::to_string(i->getHeight()) + "," + (i->isDirty() ? "1" : "0") + "," + (i->finalized ? "1" : "0") + ",";
+      std::string pl = spPayloads(*i);
+      ls.push_back(l + (pl.empty() ? "-" : pl));
+    }
+    std::sort(ls.begin(), ls.end());
+    std::string s = std::string(tag) + "{";
+    for (auto& l : ls) s += l + ";";
+    s += "}tips{";
+    std::vector<std::string> tips;
+    for (auto* x : t.getTips()) tips.push_back(reg->nameOf(x->getHash()));
+    std::sort(tips.begin(), tips.end());
+    for (auto& x : tips) s += x + ";";
+    s += "}root{" + reg->nameOf(t.getRoot().getHash()) + "}best{" + reg->nameOf(t.getBestChain().tip()->getHash()) + "}fp{";
+    std::vector<std::string> fp;
+    for (auto& kv : t.getFinalizedPayloadsIndex().getAll()) {
+      auto it = reg->names.find("id:" + vh::hex(kv.first.data(), kv.first.size()));
+      fp.push_back((it == reg->names.end() ? std::string("?") : it->second) + ">" + reg->nameOf(kv.second));
+    }
+    std::sort(fp.begin(), fp.end());
+    for (auto& x : fp) s += x + ";";
+    return s + "}";
+  }
+  std::string sdump(Instance& I) {
+    std::string s = spTree(I.tree.vbk(), "VBK") + "refs{";
+    for (auto x : I.tree.btc().getBestChain().tip()->getRefs()) s += std::to_string(x) + ";";
+    s += "}|" + spTree(I.tree.btc(), "BTC");
+    s += "|cfg{" + std::to_string(I.tree.vbk().getParams().getMaxReorgBlocks()) + "," +
+         std::to_string(I.tree.vbk().getParams().preserveBlocksBehindFinal()) + "," +
+         std::to_string(I.tree.btc().getParams().getMaxReorgBlocks()) + "," +
+         std::to_string(I.tree.btc().getParams().preserveBlocksBehindFinal()) + "}";
+    return s;
+  }
+
   // ------------------------------------------------------------------ dispatch
   std::string extra(Instance& I, const std::vector<std::string>& t) override {
     const std::string& c = t[0];
+    if (c == "sdump") return sdump(I);  // VBK + BTC trees (C09 stack-finalization correspondence)
     if (c == "xdump" && t.size() > 1 && t[1] == "fin") return xdump(I, false, false, true);
     if (c == "xdump") return xdump(I, !(t.size() > 1 && t[1] == "nobop"));
     if (c == "adump") return xdump(I, false, true);  // ALT tree only (model correspondence)
